@@ -78,6 +78,12 @@ def work(item):
         add('market-clears', '%s = %s' % (sn, dn), V(sn) == V(dn), ck_eq(sn, [dn]))
         if fin:
             if issuer is not None:
+                if 'SUP_' + M.Code not in issuer.EquationBlock:
+                    # the issuer's own supply variable was never created: a structural violation (no valuation needed)
+                    missing = '%s__SUP_%s' % (issuer.FullCode, M.Code)
+                    rec['obs'].append({'kind': 'issuer-supplies-demand', 'what': 'issuer %s of market %s has its own supply variable' % (issuer.FullCode, M.FullCode),
+                                       'verdict': 'sat', 'cex': {}, 'structural': True, 'check': 'bad = %r not in em.defined(); print(%r, "missing from the emitted system" if bad else "present")' % (missing, missing)})
+                    continue
                 isup = issuer.GetVariableName('SUP_' + M.Code)
                 add('issuer-supplies-demand', '%s = %s' % (isup, dn), V(isup) == V(dn), ck_eq(isup, [dn]))
             continue
@@ -162,7 +168,11 @@ def run(tier, seed):
         chk.count('kind:' + ob['kind'])
         if ob['verdict'] == 'sat':
             key = '%s:%s:%s' % (rec['plan'], rec['order_tag'], ob['what'][:200])
-            src = EXACT_REPLAY_HEAD % dict(plan=rec['plan'], cex=ob['cex'], order=rec['order']) + ob['check'] + '\nsys.exit(1 if bad else 0)\n'
+            if ob.get('structural'):
+                src = ('import sys\nfrom vf.replaylib import get_plan\nfrom vf import zoo as Z\nfrom vf.emit import emit\nplan = get_plan(%r)\n'
+                       'em = emit(Z.build(plan, order=%r))\n' % (rec['plan'], rec['order'])) + ob['check'] + '\nsys.exit(1 if bad else 0)\n'
+            else:
+                src = EXACT_REPLAY_HEAD % dict(plan=rec['plan'], cex=ob['cex'], order=rec['order']) + ob['check'] + '\nsys.exit(1 if bad else 0)\n'
             chk.violation(key, 'topology %s (declaration order: %s): %s fails' % (rec['plan'], rec['order_tag'], ob['what']), src)
     from vf.zoolib import plan_orders
     absorb(chk, pmap(work, plan_orders(plans, tier)), on_ob)
